@@ -171,6 +171,7 @@ FORMAT1 = z3.Function('FORMAT1', S, Val, S)
 FORMAT2 = z3.Function('FORMAT2', S, Val, Val, S)
 FORMAT3 = z3.Function('FORMAT3', S, Val, Val, Val, S)
 TYPE_STR = z3.Function('TYPE_STR', Val, Val)
+NAME_OF = z3.Function('NAME_OF', Val, S)      # x.__name__: some text (A6)
 # sums over list contents: SUMR(arr, n) = sum_{k<n} num(arr[k]).  Uninterpreted in verification conditions (a recursive
 # definition makes z3 unfold on symbolic n without end -- measured); its defining equations
 #     SUMR(a, n) = 0 for n <= 0,   SUMR(a, n+1) = SUMR(a, n) + num(a[n]) for n >= 0
